@@ -10,7 +10,7 @@ META = {
             'C17 theorems, dynamic path for every claim order (single counter and per-L3-group counters), adaptive path for every claim/steal '
             'schedule under the explicit no-wrap hypothesis on the 64-bit stripe cursors.  C12_refuted: uint64 range ending at 2^64-1, adaptive: '
             'the cursor wraps and indices outside the range are handed to the body (reproduced on the real code).  C12_holds_except states the '
-            'property on the complement of the finding domains (Gallina predicates c12_wrap_domain, c12_narrow_domain, c12_chunkovf_domain).',
+            'property on the complement of the remaining finding domain (Gallina predicate c12_wrap_domain / trace-level c12_nowrap).  Former findings explicit-chunk-overflow-64bit and adaptive-chunksize-narrowing: fixed in /repo, witnesses = regression Examples + regression cases.',
     'note': 'Trusted: Coq kernel; tools/translate.py + clang AST for the leaves; harness/h_parfor.cpp; the hand-written glue (pf_mode, pf_dyncfg, '
             'pf_scfg, stripe_end, claim, worker loops) is tied by the differential run only.  "All invocations have returned when parallel_for / '
             'wait() returns" is C02; here: completeness of a schedule = every worker has left its loop.',
@@ -18,7 +18,7 @@ META = {
 
 ASSUMPTIONS = [
     'domain (pf_dom): start,end in the index type, 2*size + 64*(N+1) + granularity + 1 < 2^63, size <= kmax for int32/int64, explicit chunk in '
-    '[1, kmax), pool threads N < 2^31, options are uint32 values; size + explicit chunk < 2^63 (beyond: finding explicit-chunk-overflow-64bit)',
+    '[1, kmax), pool threads N < 2^31, options are uint32 values',
     'a schedule is complete when every worker has left its claim loop (task-set completion is C02)',
     'adaptive path: the victim returned by pickStripeFromMasks is an oracle (any stripe non-empty at init); all event lists are quantified',
     'nested parallel_for (isParForRecursive) takes the serial branch f(start,end); nesting is not a parameter of the model',
@@ -28,11 +28,13 @@ ASSUMPTIONS = [
 WITNESS_WRAP = {'kn': 7, 's': (1 << 64) - 101, 'e': (1 << 64) - 1, 'mode': 'a', 'chunk': 0, 'N': 1, 'maxT': (1 << 31) - 1, 'minItems': 7,
                 'g': 1, 'wait': 1, 'rdv': 0, 'reuse': 0}
 WITNESS_WRAP5 = dict(WITNESS_WRAP, N=4, minItems=1)       # the schedule-dependent original (5 workers, chunk 1)
+# witness of the former finding adaptive-chunksize-narrowing (fixed in /repo), kept as a regression case (expected verdict 0)
 WITNESS_NARROW = {'kn': 0, 's': -128, 'e': 127, 'mode': 'a', 'chunk': 0, 'N': 1, 'maxT': (1 << 31) - 1, 'minItems': 85, 'g': 1, 'wait': 1,
                   'rdv': 0, 'reuse': 0}
+# witness of the former finding explicit-chunk-overflow-64bit (fixed in /repo), kept as a regression case (expected verdict 0)
 WITNESS_CHUNKOVF = {'kn': 7, 's': 0, 'e': 100, 'mode': 'c', 'chunk': (1 << 64) - 50, 'N': 4, 'maxT': (1 << 31) - 1, 'minItems': 1, 'g': 1,
                     'wait': 1, 'rdv': 0, 'reuse': 0}
-KEYS = {11: 'adaptive-cursor-wrap-64bit', 12: 'adaptive-chunksize-narrowing', 13: 'explicit-chunk-overflow-64bit'}
+KEYS = {11: 'adaptive-cursor-wrap-64bit'}
 
 
 def report(ctx, c, res, v, hist, tag=''):
@@ -102,9 +104,8 @@ def run(ctx):
                        'maxThreads x minItemsPerChunk x granularity 1..64 with start mod g swept x static/adaptive/explicit chunk x wait 0/1.  '
                        'Non-trivial = more than one body invocation; distinct = distinct input tuples')
     ctx.cov['verdict_histogram'] = {'agree_and_partition': hist.get(0, 0), 'partition_but_differs_from_model': hist.get(1, 0),
-                                    'not_a_partition': hist.get(2, 0), 'not_a_partition_known_cursor_wrap': hist.get(11, 0),
-                                    'not_a_partition_known_chunk_narrowing': hist.get(12, 0),
-                                    'not_a_partition_known_explicit_chunk_overflow': hist.get(13, 0)}
+                                    'not_a_partition': hist.get(2, 0), 'not_a_partition_known_cursor_wrap': hist.get(11, 0)
+                                    }
     ctx.cov['cases_by_mode_wait'] = modes
     ctx.cov['traces_validated_against_impl'] += hist.get(0, 0)
     for i in (len(cases) // 3, len(cases) // 2):
